@@ -590,6 +590,25 @@ func (v *FnVC) specApply(sf *SpecFun, x *CallE, env *Env, cl *Clause) Term {
 		}
 		args = append(args, at)
 	}
+	if sf.Rec && sf.Body != nil {
+		name := v.declareRecFun(sf, pkg, cl)
+		var as []string
+		if v.symHeaps != nil {
+			for _, k := range sf.RecKeys {
+				as = append(as, v.get(k))
+			}
+		} else {
+			v.withState(env.st, func() {
+				for _, k := range sf.RecKeys {
+					as = append(as, v.get(k))
+				}
+			})
+		}
+		for _, a := range args {
+			as = append(as, a.S)
+		}
+		return Term{fmt.Sprintf("(%s %s)", name, strings.Join(as, " ")), rt}
+	}
 	if sf.Body == nil {
 		name := v.w.declareSpecFun(sf, v, pkg)
 		if len(args) == 0 {
@@ -629,4 +648,51 @@ func constTermOf(c *types.Const, sorts *Sorts) (Term, bool) {
 		return Term{strLit(constant.StringVal(val)), c.Type()}, true
 	}
 	return Term{}, false
+}
+
+// declareRecFun emits a recursive spec function as define-fun-rec; the heaps its body
+// reads become explicit leading parameters (found by a first translation pass).
+func (v *FnVC) declareRecFun(sf *SpecFun, pkg *ssa.Package, cl *Clause) string {
+	name := "spec." + sf.Name
+	if v.w.declared[name] || v.w.recInProgress[sf.Name] {
+		return name
+	}
+	if v.w.recInProgress == nil {
+		v.w.recInProgress = map[string]bool{}
+	}
+	v.w.recInProgress[sf.Name] = true
+	defer delete(v.w.recInProgress, sf.Name)
+	translate := func() (string, []string) {
+		saveSym, saveBody := v.symHeaps, v.body.String()
+		v.symHeaps = map[string]bool{}
+		ne := &Env{v: v, vars: map[string]Term{}, st: State{}, callee: true, pkg: pkg}
+		for _, p := range sf.Params {
+			pt := v.w.parseType(p.Type, pkg)
+			if pt == nil {
+				v.specFail(cl, "unknown type %s in %s", p.Type, sf.Name)
+			}
+			ne.vars[p.Name] = Term{"|p!" + sanitize(p.Name) + "|", pt}
+		}
+		body := v.specTerm(sf.Body, ne, &Clause{Text: sf.Text, File: sf.File, Line: sf.Line})
+		keys := sortedKeys(v.symHeaps)
+		v.symHeaps = saveSym
+		// the body must not have emitted definitions into the function VC
+		v.body.Reset()
+		v.body.WriteString(saveBody)
+		return body.S, keys
+	}
+	_, keys := translate()
+	sf.RecKeys = keys
+	body, keys2 := translate()
+	sf.RecKeys = keys2
+	var ps []string
+	for _, k := range sf.RecKeys {
+		ps = append(ps, fmt.Sprintf("(|H!%s| %s)", sanitize(k), v.heapSort(k)))
+	}
+	for _, p := range sf.Params {
+		ps = append(ps, fmt.Sprintf("(|p!%s| %s)", sanitize(p.Name), v.sortOf(v.w.parseType(p.Type, pkg))))
+	}
+	rt := v.w.parseType(sf.Result, pkg)
+	v.w.declareOnce(name, fmt.Sprintf("(define-fun-rec %s (%s) %s %s)", name, strings.Join(ps, " "), v.sortOf(rt), body))
+	return name
 }
